@@ -151,7 +151,7 @@ def run(tier, seed, replay):
     # 2. policy matrix
     b = vf.driver("d_policy", "asan")
     spec = ("prov=0,1;route=0,1,2,3;cfg=0,1,4,7,10,14,15;keys=none,oct:64,oct:16,rsa:2048,rsa:1024,ec:P-256,ec:secp256k1,okp:Ed25519;kalg=-1,0,1,4,7,14,15;pub=0,1;"
-            "hdr=0..49;sig=0,1,2,3,6,7,9;op=v,g")
+            "hdr=0..63;sig=0,1,2,3,6,7,9;op=v,g")
     if tier == "thorough":
         spec = c02.spec("thorough")
     pouts, crashes = vf.run_shards(b, ["--arg1", spec, "--seed", seed], vf.NCPU, rd, tag="pol", timeout=3000)
